@@ -53,7 +53,11 @@ def handler_obligations(repo):
 
     def visit(node, ok):
         if isinstance(node, ast.Try):
-            inner = ok or any(catches(h) and "sys.exit" in ast.unparse(h) for h in node.handlers)
+            # a handler that catches ValueError and does not re-raise it (any way of
+            # reporting and exiting is accepted; the exit status itself is the CLI grid's)
+            inner = ok or any(catches(h) and not any(
+                isinstance(n, ast.Raise) and n.exc is None for n in ast.walk(h))
+                for h in node.handlers)
             for b in node.body:
                 visit(b, inner)
             for part in (node.handlers, node.orelse, node.finalbody):
@@ -73,7 +77,7 @@ def handler_obligations(repo):
     for (ln, meth), ok in sorted(covered.items()):
         out.append({"name": "main.handler-covers-ValueError[%s@%d]" % (meth, ln), "ok": ok,
                     "detail": "date_time_oper.%s(...) at main.py:%d is %sinside a try whose "
-                              "handler catches ValueError and calls sys.exit" % (
+                              "handler catches ValueError without re-raising it" % (
                                   meth, ln, "" if ok else "NOT "),
                     "backend": "ast-handlers", "reproduced": False})
     return out
